@@ -240,6 +240,44 @@ func checkCase(raw json.RawMessage, c *rcase, conc *vlib.Conc) {
 			}
 		}
 	}
+	// ---- callgrind (always at address granularity, never trimmed): every cost line is an entry's flat value,
+	// every call's cost the edge weight
+	if c.Cfg.Gran == "addresses" {
+		if r := render(p, append([]string{"-callgrind"}, base...)...); !bad("callgrind", r) {
+			nodes, edges, err := vdrv.Callgrind(r.File("out"))
+			if err != nil {
+				fail("callgrind", "undecodable", err.Error()+"\n"+r.File("out"))
+			} else {
+				var got, want, gotE, wantE []string
+				addrName := map[string]bool{}
+				for _, n := range nodes {
+					got = append(got, fmt.Sprintf("%s|%s|%x|%d|flat=%d", n.Fn, n.File, n.Addr, n.Line, n.Flat))
+				}
+				for _, n := range c.Exp.Nodes {
+					ni := vrep.Info(n.E, conc)
+					want = append(want, fmt.Sprintf("%s|%s|%x|%d|flat=%d", ni.Name, ni.File, ni.Address, ni.Lineno, n.Flat))
+					addrName[fmt.Sprintf("%s@%x", ni.Name, ni.Address)] = true
+				}
+				for _, e := range edges {
+					gotE = append(gotE, fmt.Sprintf("%s@%x -> %s@%x|w=%d", e.SrcFn, e.SrcAddr, e.DstFn, e.DstAddr, e.W))
+				}
+				for _, e := range c.Exp.Edges {
+					a, b := vrep.Info(e.Src, conc), vrep.Info(e.Dst, conc)
+					wantE = append(wantE, fmt.Sprintf("%s@%x -> %s@%x|w=%d", a.Name, a.Address, b.Name, b.Address, e.W))
+				}
+				sort.Strings(got)
+				sort.Strings(want)
+				sort.Strings(gotE)
+				sort.Strings(wantE)
+				if strings.Join(got, "\n") != strings.Join(want, "\n") {
+					fail("callgrind", "nodes", fmt.Sprintf("got:\n%s\nwant:\n%s", strings.Join(got, "\n"), strings.Join(want, "\n")))
+				}
+				if strings.Join(gotE, "\n") != strings.Join(wantE, "\n") {
+					fail("callgrind", "edges", fmt.Sprintf("got:\n%s\nwant:\n%s", strings.Join(gotE, "\n"), strings.Join(wantE, "\n")))
+				}
+			}
+		}
+	}
 	// ---- traces: one stack per sample that has frames, value = W (divided by D under mean)
 	if r := render(p, append([]string{"-traces"}, base...)...); !bad("traces", r) {
 		ts, err := vdrv.Traces(r.File("out"))
